@@ -25,6 +25,7 @@ from dsim import e1_model as M
 from dsim.kernel import Violation
 
 NAME = "e1"
+REWIRE = True
 CHUNK = 20
 RUNS = {"C01": (12000, 200000), "C06": (12000, 200000), "C09": (12000, 200000),
         "C20": (10000, 150000)}
